@@ -92,7 +92,7 @@ add_leg('C19', 'D_heartbeat', 1, 10, 1, 10)
 add_leg('C19', 'D_dup_sack', 1, 10, 1, 10)
 
 SIM_NOTE = ("Trusted base: the instrumenter and simulator runtime under /verif (scheduling points at every lock/cond/channel/select/goroutine start; "
-            "seeded select and map-iteration order), Go 1.26.8 testing/synctest, the harness' own decoder and reference models. "
+            "seeded select and map-iteration order; two seeded schedule families: random walk and priorities), Go 1.26.8 testing/synctest, the harness' own decoder and reference models. "
             "Sampling, not enumeration: schedules, faults, workloads and configurations are drawn from one seed per run.")
 
 MANIFEST_TEXT = {
